@@ -164,19 +164,19 @@ Lemma hash_feed_agrees s : forall cc acc out, lenN acc <= 255 ->
    <-> c32_run cc acc (map Sym s) = Ok out /\ lenN out <= 255).
 Proof.
   induction s as [|ch r IH]; intros cc acc out Ha.
-  - cbn [map feed finish bind fst snd hash_tail hc_c hc_len c32_run].
+  - cbn [map feed finish bind fst snd c32_run]. unfold hash_tail. cbn [hc_c hc_len].
     destruct (c32_process_tail cc) as [t| | |]; cbn [bind]; try (split; [discriminate|intros [X _]; discriminate]).
-    unfold hash_check. change nsec3_hash_max with 255.
+    unfold hash_check. cbv zeta. change nsec3_hash_max with 255.
     destruct (N.ltb_spec 255 (lenN acc + N.of_nat (length t))) as [G|L]; cbn [bind].
-    + split; [discriminate|]. intros [X Y]. match type of X with ?T => idtac "XTYPE" T end. injection X as <-. rewrite lenN_app in Y. unfold lenN in *. lia.
+    + split; [discriminate|]. intros [X Y]. injection X as <-. rewrite lenN_app in Y. unfold lenN in *. lia.
     + split.
-      * intros Q. match type of Q with ?T => idtac "QTYPE" T end. injection Q as <-. split; [reflexivity|]. rewrite lenN_app. unfold lenN in *. lia.
+      * intros Q. injection Q as <-. split; [reflexivity|]. rewrite lenN_app. unfold lenN in *. lia.
       * intros [Q _]. exact Q.
   - cbn [map feed c32_run c32_process_symbol]. unfold hash_process at 1. cbn [hc_c hc_len].
     unfold c32_sym at 1. cbn [sym_char into_char bind].
     destruct (c32_process_char cc ch) as [[c' o]| | |]; cbn [bind fst snd finish];
       try (split; [discriminate|intros [X _]; discriminate]).
-    unfold hash_check. change nsec3_hash_max with 255.
+    unfold hash_check. cbv zeta. change nsec3_hash_max with 255.
     destruct (N.ltb_spec 255 (lenN acc + N.of_nat (length o))) as [G|L]; cbn [bind fst snd].
     + split; [discriminate|]. intros [X Y]. apply c32_run_mono in X. rewrite lenN_app in X. unfold lenN in *. lia.
     + replace (lenN acc + N.of_nat (length o)) with (lenN (acc ++ o)) by (rewrite lenN_app; reflexivity).
